@@ -144,7 +144,12 @@ def mux_rules(ctx):
     fn, ex, r = _ret(ctx, "mux")
     sel, v1, v0 = fn.param(0), fn.param(1), fn.param(2)
     m = pmatch("switch_value(Q_s, Q_cases, src_loc=Q_l)", r.value)
-    ok = m is not None and m["s"] == sel and m["cases"] in (("list", ("tuple", ("c", 0), v0), ("tuple", ("c", None), v1)), ("list", ("tuple", ("c", 1), v1), ("tuple", ("c", None), v0)))
+    ok = m is not None and m["s"] == sel and m["cases"][0] == "list" and all(c[0] == "tuple" and len(c) == 3 and c[1][0] == "c" and (c[1][1] is None or isinstance(c[1][1], int)) for c in m["cases"][1:])
+    if ok:
+        # the case list read as a table (first matching key wins, None = default), for every selector value 0..7
+        for s in range(8):
+            pick = next((c[2] for c in m["cases"][1:] if c[1][1] is None or c[1][1] == s), None)
+            ok = ok and pick == (v0 if s == 0 else v1)
     ctx.check(ok, "C36.mux-polarity", r.site, "mux", found=tstr(r.value), required="sel == 0 selects val0, anything else val1")
     fn = Fn(ctx.repo, FUNCS, "switch_value", "C36")
     rets = fn.facts(Return, lambda r: r.callid is None)
